@@ -52,4 +52,17 @@ theorem batchInit_eq_model (c : BatchCfg) (sd : Int) (hd : 1 ≤ c.dev) :
 theorem decimalPlaces_eq_model (e : Int) (m : Nat) : Gen.decimalPlaces e (m : Int) = MdpaxV.decimalPlaces e m := by
   simp only [Gen.decimalPlaces, MdpaxV.decimalPlaces]
 
+/-- **the five solver-configuration validators as written in /repo = the model's `validateSolver`**: same checks, same order,
+    same exception classes, for every configuration -/
+theorem validate_vi_eq (c : SolverCfg) : Gen.validate_vi c = validateSolver .vi c := by
+  simp only [Gen.validate_vi, validateSolver, checkCommon, bind_assoc]
+theorem validate_pi_eq (c : SolverCfg) : Gen.validate_pi c = validateSolver .pi c := by
+  simp only [Gen.validate_pi, validateSolver, checkCommon, bind_assoc]
+theorem validate_rvi_eq (c : SolverCfg) : Gen.validate_rvi c = validateSolver .rvi c := by
+  simp only [Gen.validate_rvi, validateSolver, checkCommon, bind_assoc, ne_eq]
+theorem validate_periodic_eq (c : SolverCfg) : Gen.validate_periodic c = validateSolver .periodic c := by
+  simp only [Gen.validate_periodic, validateSolver, checkCommon, bind_assoc]
+theorem validate_semi_eq (c : SolverCfg) : Gen.validate_semi c = validateSolver .semi c := by
+  simp only [Gen.validate_semi, validateSolver, checkCommon, bind_assoc]
+
 end MdpaxV.GenTie
